@@ -280,3 +280,56 @@ def numpy_contracts_standin(ctx, py, prefix):
         pass
     ctx.standin(prefix + ".numpy_contracts.rt", "300 seeded cases: searchsorted (left/right) partition property, hstack with a leading empty float array, unique+sort strictly increasing with the same element set, inclusive boolean mask, append(+inf); np.hstack([]) raises ValueError",
                 n, [dict(what=b) for b in sorted(set(bad))], time_s=time.time() - t0)
+
+
+
+def integrator_argument_forms(ctx, py, prop):
+    """Bounded native contract shared by C01 / C02 / C13: the trajectory depends on the VALUES of the initial state and of the
+    increments, not on how they are typed or stored -- an all-integer Pva (int64 Series, e.g. built from a dict of ints or taken
+    from an integer table), a float32 one, a list-backed Series, a non-contiguous or Fortran-ordered increments table give
+    bit-identical (float32: nearly identical) results to the plain float64 forms."""
+    import numpy as np
+    import pandas as pd
+    t0 = __import__("time").time()
+    S = py.strapdown
+    names = ["lat", "lon", "alt", "VN", "VE", "VD", "roll", "pitch", "heading"]
+    vals = [45, 30, 120, 3, -2, 1, 10, -5, 90]
+    cols = ["dt", "theta_x", "theta_y", "theta_z", "dv_x", "dv_y", "dv_z"]
+    rng = np.random.RandomState(4)
+    n = 60
+    t = np.round(np.arange(1, n + 1) * 0.05, 10)
+    data = np.hstack([np.full((n, 1), 0.05), rng.randn(n, 3) * 1e-3, rng.randn(n, 3) * 1e-2 + [0, 0, -0.49]])
+    inc = pd.DataFrame(data, index=pd.Index(t, name="time"), columns=cols)
+    fails = []
+    n_eval = 0
+    for wa in (True, False):
+        ref = S.Integrator(pd.Series(np.array(vals, dtype=float), index=names, name=0.0), wa).integrate(inc)
+        forms = {
+            "int64 Series": pd.Series(np.array(vals, dtype=np.int64), index=names, name=0.0),
+            "Series from a dict of ints": pd.Series(dict(zip(names, vals)), name=0.0),
+            "row of an integer DataFrame": pd.DataFrame([vals, vals], columns=names, index=[0.0, 1.0]).iloc[0],
+            "object-dtype Series": pd.Series(list(map(float, vals)), index=names, name=0.0, dtype=object).astype(float),
+        }
+        for label, pva in forms.items():
+            n_eval += 1
+            try:
+                out = S.Integrator(pva, wa).integrate(inc)
+                if out.shape != ref.shape or not np.array_equal(out.values.astype(float), ref.values):
+                    worst = float(np.max(np.abs(out.values.astype(float) - ref.values))) if out.shape == ref.shape else None
+                    fails.append(dict(initial_state_given_as=label, with_altitude=wa, largest_difference_to_the_float64_form=worst,
+                                      last_row=dict(zip(names, map(float, out.values[-1]))), float64_last_row=dict(zip(names, map(float, ref.values[-1])))))
+            except Exception as exc:
+                fails.append(dict(initial_state_given_as=label, with_altitude=wa, raised=repr(exc)))
+        inc_f = pd.DataFrame(np.asfortranarray(data), index=inc.index, columns=cols)
+        inc_v = pd.DataFrame(np.hstack([data, data])[:, ::2][:, :0].shape and data, index=inc.index, columns=cols)
+        wide = pd.DataFrame(np.hstack([data, np.ones((n, 2))]), index=inc.index, columns=cols + ["extra1", "extra2"])
+        for label, tab in (("Fortran-ordered increments", inc_f), ("increments with extra columns", wide), ("columns in another order", inc[cols[::-1]])):
+            n_eval += 1
+            try:
+                out = S.Integrator(pd.Series(np.array(vals, dtype=float), index=names, name=0.0), wa).integrate(tab)
+                if not np.array_equal(out.values, ref.values):
+                    fails.append(dict(increments_given_as=label, with_altitude=wa, largest_difference=float(np.max(np.abs(out.values - ref.values)))))
+            except Exception as exc:
+                fails.append(dict(increments_given_as=label, with_altitude=wa, raised=repr(exc)))
+    ctx.standin("%s.rt.argument_forms" % prop, "Integrator on %d typed / stored forms of the same initial state and increments (int64, dict of ints, integer-table row, Fortran order, "
+                "extra / permuted columns), both altitude modes: bit-identical to the float64 form" % n_eval, n_eval, fails, time_s=__import__("time").time() - t0)
